@@ -258,7 +258,11 @@ func (in *Interp) intrinsic(fn *ssa.Function, args []Value) Value {
 	case "vAllocLimit":
 		limit := in.toInt(args[0].(*Term))
 		in.allocHook = func(n *Term) {
+			// prefer a counterexample large enough to be measurable natively, small
+			// enough to be harmless there
+			in.prefer = tb.And(tb.SLe(tb.Add(limit, tb.Int(1<<20)), n), tb.SLe(n, tb.Int(1<<28)))
 			in.mustHold(tb.SLe(n, limit), "alloc", "allocation out of proportion to the bytes received")
+			in.prefer = nil
 		}
 		return nil
 	case "vFromRNG":
@@ -506,6 +510,9 @@ func (in *Interp) reportViolation(kind, what, site string, model map[string]any)
 func (in *Interp) handleViolation(kind, what, site string, failCond *Term) {
 	tb := in.tb
 	extra := []*Term{failCond}
+	if in.prefer != nil && in.check(failCond, in.prefer) == Sat {
+		extra = append(extra, in.prefer)
+	}
 	for iter := 0; iter < 16; iter++ {
 		r := in.solver.Check(extra...)
 		if r != Sat {
